@@ -1,6 +1,7 @@
 import RegexVerif.Sexp
 import RegexVerif.Model.Scan
 import RegexVerif.Model.Finders
+import RegexVerif.Model.BoyerMoore
 
 namespace RegexVerif.Driver
 open RegexVerif Sexp RegexVerif.Scan
@@ -203,12 +204,56 @@ def handleFinder (fs : List Sexp) : String :=
     | _, _, _, _, _, _, _, _, _, _ => "(bad-op)"
   | _, _, _, _, _, _, _, _ => "(bad-op)"
 
+/-! ### the Boyer-Moore prefix (Model/BoyerMoore.lean) -/
+
+def lowerTable? (fs : List Sexp) : Option (Nat → Nat) :=
+  match (lookup "lower" fs).bind (·.mapM fun e => match e with
+    | .list [a, b] => match a.nat?, b.nat? with
+      | some a, some b => some (a, b)
+      | _, _ => none
+    | _ => none) with
+  | some ps => some fun c => match ps.find? (fun p => p.1 == c) with
+    | some p => p.2
+    | none => c
+  | none => none
+
+open RegexVerif.BoyerMoore in
+/-- `(bm (rtl b) (ci b) (old b) (tables b) (pat r…) (lower (r l)…) (text r…) (beg B) (end E))` ↦ `(ok nil)` when
+    `newBmPrefix` returns nil, else `(ok (pattern r…) (positive i…) (lowhigh L H) (ascii i…) (pages (P i…)…)
+    (scan i…) (ismatch b…))`: the physical tables (only when `tables` is 1), `Scan(text, index, beg, end)` and
+    `IsMatch(text, index, beg, end)` for every `index` in `0 … len(text)`; `old = 1` selects the table lookup
+    before /repo 649b08f -/
+def handleBm (fs : List Sexp) : String :=
+  let one (k : String) : Option Sexp := (lookup k fs).bind (·.head?)
+  let nats (k : String) : Option (List Nat) := (lookup k fs).bind (·.mapM nat?)
+  match (one "rtl").bind bool?, (one "ci").bind bool?, (one "old").bind bool?, (one "tables").bind bool?,
+        nats "pat", lowerTable? fs, nats "text", (one "beg").bind nat?, (one "end").bind nat? with
+  | some rtl, some ci, some old, some tables, some pat, some lower, some text, some beg, some en =>
+    match newBmPrefix lower pat ci rtl with
+    | none => "(ok nil)"
+    | some t =>
+      let idx := List.range (text.length + 1)
+      let sc := idx.map fun i => match scanWith old lower t text i beg en with
+        | some r => (r : Int)
+        | none => -1
+      let im := idx.map fun i => ofBool (isMatch lower t text i beg en)
+      let tabs : List Sexp :=
+        if tables then
+          [mk "pattern" (t.pattern.map ofNat), mk "positive" (t.positive.map ofInt),
+           mk "lowhigh" [ofNat t.lowHigh.1, ofNat t.lowHigh.2], mk "ascii" (t.negAscii.map ofInt),
+           mk "pages" (t.negPages.map fun p => Sexp.list (ofNat p.1 :: p.2.map ofInt))]
+        else []
+      toString (Sexp.list (.atom "ok" :: tabs ++ [mk "scan" (sc.map ofInt), mk "ismatch" im]))
+  | _, _, _, _, _, _, _, _, _ => "(bad-op)"
+
+
 /-- `(c03 (n N) (rtl b) (minlen L) (start s) (prevlen k) (row (att found q after)…))` ↦
     `(ok <scan> <naive> (hyp shape finder after minlen))`;
-    `(c03 (finder …))` ↦ see `handleFinder` -/
+    `(c03 (finder …))` ↦ see `handleFinder`; `(c03 (bm …))` ↦ see `handleBm` -/
 def handleC03 (args : List Sexp) : String :=
   match args with
   | [.list (.atom "finder" :: fs)] => handleFinder fs
+  | [.list (.atom "bm" :: fs)] => handleBm fs
   | _ =>
   let get (key : String) : Option Sexp := (lookup key args).bind (·.head?)
   match (get "n").bind nat?, (get "rtl").bind bool?, (get "minlen").bind nat?, (get "start").bind nat?,
